@@ -50,6 +50,7 @@ var (
 	domContributionAndProo = [4]byte{0x09, 0, 0, 0}
 	genesisForkVersion     = [4]byte{0x00, 0x00, 0x10, 0x20}
 	altairForkVersion      = [4]byte{0x01, 0x00, 0x10, 0x20}
+	laterForkVersion       = [4]byte{0x02, 0x00, 0x10, 0x20}
 	genesisValidatorsRoot  = sha256.Sum256([]byte("c15 genesis validators root"))
 	genesisTime            = time.Unix(1606824023, 0)
 )
@@ -62,6 +63,8 @@ type Chain struct {
 	CommitteeSize     uint64 `json:"committee_size"`
 	SubnetCount       uint64 `json:"subnet_count"`
 	TargetAggregators uint64 `json:"target_aggregators"`
+	// LaterForkEpoch: a later hard fork (new fork version, e.g. Bellatrix) at this epoch; 0 = none.
+	LaterForkEpoch uint64 `json:"later_fork_epoch,omitempty"`
 }
 
 // Member is one validator of this vouch instance.
@@ -207,6 +210,9 @@ func (w *world) Spec(context.Context, *api.SpecOpts) (*api.Response[map[string]a
 
 // forkVersionAt is the fork schedule of the chain.
 func (w *world) forkVersionAt(epoch uint64) [4]byte {
+	if l := w.c.Chain.LaterForkEpoch; l > 0 && l >= w.c.Chain.AltairForkEpoch && epoch >= l {
+		return laterForkVersion
+	}
 	if epoch >= w.c.Chain.AltairForkEpoch {
 		return altairForkVersion
 	}
